@@ -6,7 +6,12 @@ use crate::push::vector::IntVector;
 use std::collections::HashMap;
 use std::fmt;
 use std::hash::{Hash, Hasher};
+#[cfg(not(feature = "verif"))]
 use std::sync::atomic::{AtomicUsize, Ordering};
+#[cfg(feature = "verif")]
+use std::sync::atomic::Ordering;
+#[cfg(feature = "verif")]
+use crate::push::verif_seam::AtomicUsize;
 
 static NODE_COUNTER: AtomicUsize = AtomicUsize::new(1);
 
